@@ -3,6 +3,7 @@ CONSTANTS
   Atomic = FALSE
   SkipTruth = TRUE
   MaxRuns = 2
+  BySpelling = FALSE
 INVARIANT Agreement
 INVARIANT TruthUntouched
 INVARIANT ReportTruthful
